@@ -208,6 +208,113 @@ def run_spec(spec, part, proxy):
     part.sample({'type': T.sstr(spec), 'proxy': proxy, 'values': len(vals), 'checks': res['n']})
 
 
+# ---------------------------------------------------------------------------------------------
+# the value returned to a caller is the one the driver produced - under every schedule of the client's threads
+
+RACE_SPEC = ('int', 0, 9)
+
+
+def race_execute(prefix):
+    from vf.engines import schedx, fakesock
+    from vf import nodes
+    import frappy.client as C
+    from frappy.protocol.interface.tcp import TCPRequestHandler
+    fakesock.install()
+    import frappy.io
+    frappy.io.HasIO.ioDict.clear()
+    cls, dt, vals = make_class(RACE_SPEC)
+    sched = schedx.Scheduler(prefix, max_steps=400000, horizon=600.0, grace=5.0)
+    net = fakesock.Net()
+    fakesock.set_net(net)
+    res = {'viol': []}
+    del LOG[:]
+
+    def body():
+        back = nodes.Node({'m': {'cls': cls}}, name='back')
+        res['back'] = back
+        net.listen('node', 10767, lambda: fakesock.ServerPeer(
+            lambda ssock: TCPRequestHandler(ssock, ('127.0.0.1', 4000), nodes.InterfaceStub(back)), 'backhandler'))
+        mod = back.secnode.modules['m']
+        client = C.SecopClient('tcp://node:10767', log=None)
+        client.connect()
+        sched.begin()
+        for v in vals[:2]:
+            try:
+                item = client.setParameter('m', 'p', v)
+                if item.readerror is not None or not same(item.value, mod.p, dt):
+                    res['viol'].append(('e2e:race:setParameter-returned-a-stale-cache-item',
+                                        f'setParameter({v!r}) returned {item!r} but the driver answered {mod.p!r}'))
+                item = client.readParameter('m', 'p')
+                if item.readerror is not None or not same(item.value, mod.p, dt):
+                    res['viol'].append(('e2e:race:readParameter-returned-a-stale-cache-item',
+                                        f'readParameter returned {item!r} but the node holds {mod.p!r}'))
+            except Exception as e:      # noqa
+                res['viol'].append((f'e2e:race:call-raised:{type(e).__name__}', f'value {v!r}: {e!r}'))
+        sched.window = False
+        client.disconnect()
+        client.callbacks.clear()
+    x = sched.run(body)
+    if res.get('back') is not None:
+        res['back'].close()
+    for s in net.socks:
+        s.closed = True
+    if x.deadlock or x.livelock:
+        res['viol'].append(('e2e:race:hang', str(x.deadlock or x.livelock)))
+    main = x.threads[0]
+    if main.exc is not None:
+        res['viol'].append((f'e2e:race:harness-died:{type(main.exc).__name__}', repr(main.exc)))
+    return x, res['viol']
+
+
+def race_trace():
+    import inspect
+    from vf.engines import schedx
+    import frappy.client as C
+    funcs = [f for _n, f in inspect.getmembers(C.SecopClient, inspect.isfunction) if f.__code__.co_filename == C.__file__
+             and f.__name__ in ('_SecopClient__rxthread', 'updateValue', 'get_reply', 'request', 'setParameter', 'readParameter',
+                                '_handle_reply', '_SecopClient__txthread')]
+    funcs += [f for n, f in inspect.getmembers(C.SecopClient, inspect.isfunction) if f.__code__.co_filename == C.__file__
+              and n.startswith('_') and not n.startswith('__') and f not in funcs and 'reply' in n]
+    schedx.trace_lines(funcs)
+
+
+def race_root(_):
+    from vf.engines import schedx
+    race_trace()
+    x1, _v = race_execute([])
+    x2, _v = race_execute([])
+    if x1.trace != x2.trace:
+        raise core.Inconclusive('C12 e2e race: the default schedule is not deterministic')
+    part = core.Part()
+    part.data.append(schedx.first_level(x1, 1, 0, 1))
+    part.extra['points_in_default_schedule'] += len(x1.points)
+    return part
+
+
+def race_sub(prefix):
+    from vf.engines import schedx
+    race_trace()
+    part = core.Part()
+
+    def ex(pfx):
+        x, viol = race_execute(pfx)
+        part.evaluations += 1
+        part.traces += 1
+        part.transitions += x.steps
+        part.fps |= x.fingerprints
+        if x.preemptions:
+            part.nontrivial += 1
+        part.outcomes['race:' + ('ok' if not viol else viol[0][0])] += 1
+        for sig, detail in viol:
+            part.violation(f'C12:{sig}', {'kind': 'e2e-race', 'prefix': list(x.choices)}, f'schedule {x.choices}: {detail}')
+        return x
+    if prefix is None:
+        ex([])
+    else:
+        schedx.explore(ex, 1, prefix=prefix, free_bound=1)
+    return part
+
+
 def e2e_fn(shard):
     spec, proxy = shard
     part = core.Part()
@@ -220,9 +327,21 @@ def run_e2e(ctx):
     ctx.pmap(e2e_fn, [(s, False) for s in sp], name='e2e_client')
     ctx.pmap(e2e_fn, [(s, True) for s in (sp if ctx.tier == 'thorough' else sp[::3])], name='e2e_proxy')
     ctx.coverage.update(e2e_types=len(sp))
+    # all schedules with <= 1 preemption at every source line of the client's receive / reply path
+    roots = ctx.pmap(race_root, [0], name='e2e_race_determinism')
+    prefixes = [None] + [p for plist in roots.data for p in plist]
+    ctx.total.data.clear()
+    ctx.pmap(race_sub, prefixes, name='e2e_race')
 
 
 def replay_e2e(case):
     part = core.Part()
+    if case.get('kind') == 'e2e-race':
+        race_trace()
+        x, viol = race_execute(case['prefix'])
+        for sig, detail in viol:
+            part.violation(f'C12:{sig}', case, detail)
+        part.evaluations = 1
+        return part
     run_spec(T.fromjson(case['spec']), part, case['proxy'])
     return part
